@@ -819,7 +819,7 @@ impl WriterSet {
             self.segment_size,
         )?;
 
-        let (closed_event_index, closed_partition_index, closed_stream_index) = {
+        {
             let mut indexes = self.indexes.blocking_write();
             for PendingIndex {
                 event_id,
@@ -859,28 +859,26 @@ impl WriterSet {
             self.index_segment_id
                 .store(self.bucket_segment_id.segment_id, Ordering::Release);
 
-            (
-                closed_event_index,
-                closed_partition_index,
-                closed_stream_index,
-            )
-        };
+            #[cfg(sierra_db_sierradb_verif)]
+            crate::verif::point(
+                "wt.roll.swapped",
+                &[
+                    ("bucket", self.bucket_segment_id.bucket_id as u64),
+                    ("seg", self.bucket_segment_id.segment_id as u64),
+                ],
+            );
+            // Hand the sealed segment's indexes to the reader pool before releasing the
+            // index lock: a reader that misses in the new (empty) live indexes must find
+            // them there
+            self.reader_pool.add_bucket_segment(
+                old_bucket_segment_id,
+                &old_reader,
+                Some(&closed_event_index),
+                Some(&closed_partition_index),
+                Some(&closed_stream_index),
+            );
+        }
 
-        #[cfg(sierra_db_sierradb_verif)]
-        crate::verif::point(
-            "wt.roll.swapped",
-            &[
-                ("bucket", self.bucket_segment_id.bucket_id as u64),
-                ("seg", self.bucket_segment_id.segment_id as u64),
-            ],
-        );
-        self.reader_pool.add_bucket_segment(
-            old_bucket_segment_id,
-            &old_reader,
-            Some(&closed_event_index),
-            Some(&closed_partition_index),
-            Some(&closed_stream_index),
-        );
         #[cfg(sierra_db_sierradb_verif)]
         crate::verif::point(
             "wt.roll.old_installed",
